@@ -12,6 +12,10 @@ def call(mod, pb):
     return mod.solve_slitherlink(pb["h"], pb["w"], pb["grid"])
 
 
+def ncand(pb):
+    return 2 ** L.n_loop_edges(pb['h'] + 1, pb['w'] + 1)
+
+
 def encode(pb):
     return [[pb["h"], pb["w"]], L.flat(pb["grid"])]
 
@@ -24,8 +28,8 @@ def families(tier, rng):
     if tier != "thorough":
         for g in L.sample(rng, L.all_grids(2, 2, VALUES), 150):
             yield {"h": 2, "w": 2, "grid": g}
-    for (h, w) in [(2, 3), (3, 2), (1, 4), (4, 1)]:
-        for _ in range(40 if tier == "thorough" else 4):
+    for (h, w) in [(1, 4), (4, 1)] + ([(2, 3), (3, 2)] if tier == "thorough" else []):
+        for _ in range(40 if tier == "thorough" else 20):
             yield {"h": h, "w": w, "grid": L.random_grid(rng, h, w, VALUES, 0.4)}
 
 
